@@ -12,6 +12,7 @@ mod store;
 mod c01;
 mod c03;
 mod c04;
+mod c08;
 
 fn main() {
     std::panic::set_hook(Box::new(|_| {}));
@@ -21,6 +22,7 @@ fn main() {
         "C01" => c01::run(&args),
         "C03" => c03::run(&args),
         "C04" => c04::run(&args),
+        "C08" => c08::run(&args),
         "C11" => c11::run(&args),
         "C16" => c16::run(&args),
         "C05" => c05::run(&args),
